@@ -234,7 +234,7 @@ uint8_t* Exec::ensure_slot(int si) {
       for (uint64_t j = 0; j < s.n; ++j) {
         if (s.pattern >= 100) {
           // near-integer multiples of 2^nnz: (K + f/16) * 2^nnz with |K| < 2^bits, f in [-4,4]: never an exact .5 tie
-          int64_t k = input_value(s.pattern - 100, s.bits > 51 ? 51 : s.bits, s.dseed, 0, s.n, j);
+          int64_t k = input_value(s.pattern - 100, s.bits, s.dseed, 0, s.n, j);
           int64_t f = s.bits > 46 ? 0 : (int64_t)(mix64(s.dseed ^ 0xF00D, j) % 9) - 4;
           z[j] = s.bits > 46 ? ldexp((double)k, s.nnz) : ldexp((double)(k * 16 + f), s.nnz - 4);
         } else {
